@@ -19,7 +19,8 @@ PID = 'C11'
 LEVEL = 'fault_enumeration'
 RULE = ('(a) Hypothesis lifecycle histories over ONE directory: open(reuse, clear) [all four combinations, optional '
         'foreign file in the directory], access by index / negative / numpy index / key / slice view / iteration / '
-        'prefetch, copy(), release(handle) = del + gc.collect(), reopen; a counting upstream makes every '
+        'prefetch, copy(), release(handle) = del + gc.collect(), reopen, an open refused because the dataset is not '
+        'indexable; a counting upstream makes every '
         'recomputation visible. Model: stored values per position, live handles of the one open wrapper group, '
         'directory state. Oracle: every value is the pipeline value and equals what was stored first; stored '
         'positions are served with zero upstream calls across instances; non-empty directory + reuse=False raises '
@@ -134,6 +135,33 @@ def lifecycle(case):
                 handles.append(ds)
                 group = {'clear': clear}
                 dir_used = True
+            elif kind == 'open_bad':
+                # an open that the library refuses for another reason (a dataset that is not indexable): a refused
+                # open is not "asked to clear" - whatever is stored in the directory must survive it
+                if handles:
+                    continue
+                _, reuse, clear = step
+                before = sorted(str(f.relative_to(d)) for f in d.rglob('*')) if d.is_dir() else None
+                bad = None
+                refused = False
+                try:
+                    bad = upstream().filter(lambda x: True).diskcache(spelled, reuse=reuse, clear=clear)
+                except Exception:
+                    refused = True
+                if refused:
+                    events.add('refused')
+                    gc.collect()  # (outside the handler: the traceback may keep half-built objects alive)
+                    after = sorted(str(f.relative_to(d)) for f in d.rglob('*')) if d.is_dir() else None
+                    if before is not None and (after is None or not set(before) <= set(after)):
+                        raise Violation('refused-open-damaged-directory',
+                                        f'{desc}\nstep {si}: the open was refused (dataset not indexable), yet the '
+                                        f'directory changed from {before} to {after}')
+                    continue
+                # accepted (not the case today): it is an ordinary sharer then, released at once
+                del bad
+                gc.collect()
+                if clear:
+                    stored.clear()
             elif kind == 'copy':
                 if handles:
                     handles.append(handles[step[1] % len(handles)].copy())
@@ -244,6 +272,8 @@ def st_lifecycle(draw):
             steps.append(['release', draw(st.integers(0, 3))])
         if draw(st.booleans()):
             steps += [['release', 0]] * 4  # make sure the session is closed before the next open
+            if draw(st.integers(0, 2)) == 0:
+                steps.append(['open_bad', draw(st.booleans()), draw(st.booleans())])
     case = {'mode': 'lifecycle', 'n': n, 'container': draw(st.sampled_from(['list', 'dict'])),
             'foreign': draw(st.sampled_from([False, False, False, False, True, 'dotfile'])), 'steps': steps}
     if draw(st.integers(0, 4)) == 0:
